@@ -124,12 +124,16 @@ def run(ctx):
     mc = modelcheck.run_parser_model(ctx, PROPS, cbfail_ok=False)
     scns = pumps(ctx) + caps(ctx) + maxtx(ctx) + steady(ctx)
     scns += [s for s in gens.corpus(ctx.seed, ctx.quick, cfgs=({"hard": 60, "soft": 30}, {"maxtx": 1}), modes=("orig", "byte"), nrand=0, mutants=1)]
+    import drift
+    drift.with_steps(scns, every=max(1, -(-len(scns) // (300 if ctx.quick else 4000))))
     exe = vlib.build(ctx, "alloc", ["rec"])["rec"]
     files = streams.run_rec(ctx, exe, scns, "c10")
     execs, events, viols = streams.judge_obs(ctx, files, PROPS)
     streams.attach_replays(ctx, viols, [s for s in scns if s.nbytes() < 200000])
     ctx.violations += viols
+    acc = drift.check(ctx, files)
     vlib.finish(ctx, "model_checking", {
+        "model_acceptance": acc,
         "states": mc["distinct"], "transitions": mc["generated"], "traces_validated_against_impl": execs,
         "evaluations": execs, "distinct_nontrivial": len({s.text().split("\n", 1)[1][:4000] for s in scns if s.nbytes() > 0}),
         "events_judged": events, "model": mc["what"],
